@@ -200,6 +200,45 @@ pub fn specs(tier: &str, _prop: &str) -> Vec<ExpSpec> {
     }
     v.extend(garbage_specs(th));
     v.extend(fragmented_dir_specs(th));
+    v.extend(full_dir_specs(th));
+    v
+}
+
+/// completely full volume whose directory /d has five free slots left in its only cluster: an entry set of nine
+/// slots needs a new cluster in the middle (defect D19: the slots written up to there stayed behind as orphans)
+pub fn full_dir_specs(th: bool) -> Vec<ExpSpec> {
+    use harness::sess::{DirRef, SeekSpec};
+    let r = DirRef::Root;
+    let mut v = Vec::new();
+    for ft in [FatType::Fat12, FatType::Fat16, FatType::Fat32] {
+        let mut c = vol::tiny_with(ft, 8, 16);
+        c.name = format!("{}-fulldir", c.name);
+        let prefix = vec![
+            Op::CreateDir { base: r, path: "d".into(), keep: None },
+            Op::CreateFile { base: r, path: format!("d/{}", "k".repeat(100)), keep: None },
+            Op::CreateFile { base: r, path: "a".into(), keep: Some(0) },
+            Op::WriteAll { h: 0, len: 1025 },
+            Op::WriteAll { h: 0, len: 1025 },
+            Op::WriteAll { h: 0, len: 1025 },
+        ];
+        let alphabet = vec![
+            Op::CreateFile { base: r, path: format!("d/{}", "m".repeat(100)), keep: None },
+            Op::CreateDir { base: r, path: format!("d/{}", "q".repeat(100)), keep: None },
+            Op::Rename { base: r, src: "a".into(), dst_base: r, dst: format!("d/{}", "n".repeat(100)) },
+            Op::Rename { base: r, src: format!("d/{}", "k".repeat(100)), dst_base: r, dst: format!("d/{}", "j".repeat(70)) },
+            Op::CreateFile { base: r, path: "d/b".into(), keep: None },
+            Op::CreateFile { base: r, path: "d/long-name-1.txt".into(), keep: None },
+            Op::Remove { base: r, path: format!("d/{}", "k".repeat(100)) },
+            Op::Seek { h: 0, pos: SeekSpec::Start(0) },
+            Op::Seek { h: 0, pos: SeekSpec::Start(2049) },
+            Op::Truncate { h: 0 },
+            Op::Write { h: 0, len: 513 },
+            Op::Flush { h: 0 },
+            Op::List { base: r, path: "d".into() },
+            Op::Remount,
+        ];
+        v.push(ExpSpec::new(c, alphabet, if th { 6 } else { 4 }).with_prefix(prefix));
+    }
     v
 }
 
